@@ -84,7 +84,7 @@ Next ==
                       \/ Apply([op |-> "get", k |-> k, d |-> DefaultVal])
     \/ Apply([op |-> "popitem"]) \/ Apply([op |-> "clear"]) \/ Apply([op |-> "len"]) \/ Apply([op |-> "iter"])
     \/ Apply([op |-> "values"]) \/ Apply([op |-> "items"])
-    \/ \E k \in {1, 2} : Apply([op |-> "probe_lookup", kind |-> k]) \/ Apply([op |-> "probe_contains", kind |-> k])
+    \/ \E k \in {1, 2, 3} : Apply([op |-> "probe_lookup", kind |-> k]) \/ Apply([op |-> "probe_contains", kind |-> k])
     \/ \E s \in Small : Apply([op |-> "update", ps |-> s]) \/ Apply([op |-> "eq", ps |-> s])
 Spec == Init /\ [][Next]_<<vars, last>>
 
